@@ -493,6 +493,7 @@ def specs(tier):
     thorough = tier != "quick"
     gs = [(n, es) for n, es in gr.small_graphs(3)]
     gs += [gr.NAMED[k] for k in (("P4", "S4", "C4", "paw", "K4") if thorough else ("P4", "C4"))]
+    gs += [(3, [(0, 1), (1, 2), (1, 1)]), (3, [(0, 1), (1, 2), (0, 2), (0, 0), (2, 2)]), (2, [(0, 1), (1, 1)])]      # self-loops
     for n, es in gs:
         nodes = range(n)
         for I0 in gr.subsets(nodes, 1, 2 if n <= 3 else 1):
